@@ -132,8 +132,44 @@ def partition_rules(ck, prog):
     def main_len_t(gg, w):
         return any(fl == "main_transition_constraint_degrees" for a, fl in gg.fields_in(w)) and \
             not any(fl == "aux_transition_constraint_degrees" for a, fl in gg.fields_in(w))
-    check_partition(ck, f, [("main", ops["main_constraint_coef"], (b, i)), ("aux", ops["aux_constraint_coef"], (b, i))],
-                    "transition-coefficients", main_len_t)
+    if "main_constraint_coef" in ops and "aux_constraint_coef" in ops:
+        check_partition(ck, f, [("main", ops["main_constraint_coef"], (b, i)), ("aux", ops["aux_constraint_coef"], (b, i))],
+                        "transition-coefficients", main_len_t)
+        return
+    # the list is kept whole and divided by the two public accessors (`&coef[..n_main]`, `&coef[n_main..]`)
+    acc = {}
+    for kind in ("main", "aux"):
+        fa = prog.fn_opt(f"winter_air::air::transition::TransitionConstraints::{kind}_constraint_coef")
+        if fa is None:
+            raise AnchorError(f"TransitionConstraints::{kind}_constraint_coef not found")
+        ck.saw(fa)
+        ret = [bb for bb, blk in enumerate(fa.blocks) if blk["t"]["k"] == "return"]
+        rb = range_bounds(fa, {"copy": {"l": 0}}, (ret[0], T)) if ret else None
+        acc[kind] = (fa, rb)
+
+    def counts(gg, w):
+        names = gg.callee_names_in(w)
+        flds = {fl for a, fl in gg.fields_in(w)}
+        main = any(n.endswith("num_main_constraints") for n in names) or "main_constraint_degrees" in flds
+        aux = any(n.endswith("num_aux_constraints") for n in names) or "aux_constraint_degrees" in flds
+        return main, aux
+    (fm, rm), (fx, rx) = acc["main"], acc["aux"]
+    if rm is None or rx is None:
+        ck.ob("SPLIT", "transition-coefficients", False,
+              "TransitionConstraints: the auxiliary constraints' coefficients are the rest of the list after the main constraints' share",
+              loc=fm.loc(), detail="could not recognise how the coefficient list is divided")
+        return
+    km, wm, gm = rm
+    kx, wx, gx = rx
+    mm, ma = counts(gm, wm)
+    xm, xa = counts(gx, wx)
+    ok = km == "to" and kx == "from" and mm and not ma and xm and not xa
+    ck.ob("SPLIT", "transition-coefficients", ok,
+          "TransitionConstraints: the auxiliary constraints' coefficients are the rest of the list after the main constraints' share "
+          "(no coefficient is used by two constraints, none is skipped)", loc=fx.loc(),
+          detail=None if ok else f"main accessor: Range{km.title()} bounded by {'main' if mm else ''}{'+aux' if ma else ''} count; "
+                                 f"aux accessor: Range{kx.title()} bounded by {'main' if xm else ''}{'aux' if xa else ''} count — "
+                                 "the two parts are complementary only if both are cut at the number of MAIN constraints")
 
 
 def run(ck):
@@ -276,10 +312,12 @@ def dropped(ck, prog):
         elif ds.local == 0 and ds.kind == "call":
             wc |= gc.walk(ops=list(ds.stmt["args"]), at=(ds.b, "T"))
     flds = {fl for a, fl in gc.fields_in(wc)}
+    used = gc.callee_names_in(wc)
     for fld in ("main_constraint_coef", "aux_constraint_coef", "divisor"):
-        ck.ob("D", f"combine_evaluations:{fld}", fld in flds,
+        # the field itself, or the public accessor of the same name (a list kept whole and divided by its accessors)
+        ck.ob("D", f"combine_evaluations:{fld}", fld in flds or any(n.endswith("TransitionConstraints::" + fld) for n in used),
               f"TransitionConstraints::combine_evaluations' result depends on `{fld}`", loc=ce.loc())
-    ps = {ce.local_name(p) for p in gc.params_in(wc)}
-    for p in ("main_evaluations", "aux_evaluations", "x"):
-        ck.ob("D", f"combine_evaluations:{p}", p in ps,
-              f"TransitionConstraints::combine_evaluations' result depends on `{p}`", loc=ce.loc())
+    ps = set(gc.params_in(wc))
+    for idx, p in ((2, "main_evaluations"), (3, "aux_evaluations"), (4, "x")):
+        ck.ob("D", f"combine_evaluations:{p}", idx in ps or p in {ce.local_name(q) for q in ps},
+              f"TransitionConstraints::combine_evaluations' result depends on its parameter `{p}`", loc=ce.loc())
